@@ -1,6 +1,7 @@
 import Bifrost.Model.Signaling
 import Bifrost.Lemmas.SigSessObs
 import Bifrost.Lemmas.SigWithdraw
+import Bifrost.Lemmas.SigLoopItems
 /-!
 C22 — Every session re-open is announced before stale messages are dropped.
 Relay server model `Bifrost.Sig` (code as fixed by "fix: signaling session did not announce …"
@@ -61,6 +62,37 @@ theorem stale_dropped (s : State) (c : SCall) (t : Sess) (epoch : Nat) (m : Msg)
 /-- Non-vacuity: a reachable state where B re-attached (usurped) while A stayed: A is awake. -/
 example : ∃ s, Reachable s ∧ ∃ c ∈ s.scalls, c.id = 1 ∧ c.isAwake s = true ∧ c.announced ≠ c.cur s := by
   refine ⟨run [.init 1 1 2, .init 2 2 1, .loop 1, .send_ 1 (.opened 2), .init 3 2 1],
+    SigSess.reachable_run _ (by decide), ?_⟩
+  decide
+
+/-- Wave 6 (no lost wake-up across the announcement): an iteration of the write loop of an attached
+call that finds the session open in an epoch it has NOT announced yet decides, in that SAME
+iteration, the announcement `Opened epoch` followed by every item already queued for its peer —
+the acknowledgement, the withdrawal and the message accepted for the current epoch before the
+announcement. (`wake_invariant` gives that such a call is awake, i.e. that this iteration runs;
+nothing would wake the call again afterwards, so an iteration that announced and left the item
+in place would lose it.) -/
+theorem loop_hands_out_queued (s : State) (c : SCall) (t : Sess) (ours other : Att)
+    (hc : getSCall s c.id = some c) (ht : getSess s c.sess = some t)
+    (ho : t.sides c.isA = (some ours, some other)) (hcall : ours.call = c.id)
+    (hne : c.announced ≠ c.cur s) (hempty : c.outbox = []) :
+    ∃ c', getSCall (sLoop s c.id) c.id = some c' ∧ c'.announced = some t.seqno ∧
+      c'.outbox = [Resp.opened t.seqno]
+        ++ (match ours.outAcked with | some k => [Resp.ack k] | none => [])
+        ++ (match ours.recvClear with | some k => [Resp.clear k] | none => [])
+        ++ (match ours.recv with | some m => [Resp.recv m] | none => []) := by
+  exact SigSess.loop_hands_out_queued' hc ht ho hcall hne hempty
+
+/-- Non-vacuity (the seeded history): B's handler (call 2) is parked writing `Closed` while A's
+call ends, a new call of A attaches (epoch 4), is told so and submits m for epoch 4 (stored for
+B); B's write completes: B has announced nothing of epoch 4, m is queued; its next iteration
+decides `Opened 4` followed by m. -/
+example : ∃ s, Reachable s ∧ ∃ c ∈ s.scalls, c.id = 2 ∧ c.outbox = [] ∧ c.announced ≠ c.cur s ∧
+    c.isAwake s = true ∧
+    (getSCall (sLoop s 2) 2).map (·.outbox) = some [Resp.opened 4, Resp.recv ⟨1, 1⟩] := by
+  refine ⟨run [.init 1 1 2, .init 2 2 1, .loop 1, .send_ 1 (.opened 2), .loop 2, .send_ 2 (.opened 2),
+      .end_ 1, .loop 2, .init 3 1 2, .loop 3, .send_ 3 (.opened 4), .send 3 4 ⟨1, 1⟩ true 1,
+      .send_ 2 .closed],
     SigSess.reachable_run _ (by decide), ?_⟩
   decide
 
